@@ -1,12 +1,573 @@
 /-
-  placeholder — to be replaced by the port (see /verif/PORTING.md)
+  openflow13/instruction.go, group.go, flowmod.go
+    InstrHeader(Type,Length)
+    InstrGotoTable(InstrHeader(..),TableId,pad)
+    InstrWriteMetadata(InstrHeader(..),pad,Metadata,MetadataMask)
+    InstrActions(InstrHeader(..),pad,[action…])
+    InstrMeter(InstrHeader(..),MeterId)                 -- no methods of its own: Len/Marshal/Unmarshal are InstrHeader's
+    Bucket(Length,Weight,WatchPort,WatchGroup,pad,[action…])
+    GroupMod(Header(..),Command,Type,pad,GroupId,[Bucket…])          -- Buckets is a slice of VALUES
+    FlowMod(Header(..),Cookie,CookieMask,TableId,Command,IdleTimeout,HardTimeout,Priority,BufferId,OutPort,OutGroup,
+            Flags,pad,Match(..),[instruction…])
+    FlowRemoved(Header(..),Cookie,Priority,Reason,TableId,DurationSec,DurationNSec,IdleTimeout,HardTimeout,
+            PacketCount,ByteCount,Match(..))
+
+  Behaviours reproduced on purpose (see the report of the port):
+    * FlowMod.MarshalBinary writes OutPort into the out_group slot; `pad` is never written.
+    * FlowMod (DELETE / DELETE_STRICT) and GroupMod (DELETE): Len() and Header.Length exclude the children,
+      MarshalBinary still appends them.
+    * DecodeInstr: unknown / experimenter type ⇒ method call on a nil interface ⇒ panic; errors of UnmarshalBinary are dropped.
+    * InstrMeter encodes as 4 bytes (Type,Length only) and only decodes from exactly 4 bytes.
+    * decoder loops are driven by the length FIELD and advance by the children's Len().
+    * FlowRemoved.MarshalBinary does not set Header.Length.
+  Approximations (cannot be expressed with the interfaces `R (Bytes × V)` / `Match.unmarshal : V → Slice → R V`):
+    * a child whose MarshalBinary returns an error together with partial bytes contributes no bytes
+      (only NXActionConnTrack does that in the library);
+    * FlowMod.UnmarshalBinary ignores the error of Match.UnmarshalBinary and keeps the partially decoded Match;
+      the model keeps the receiver's Match unchanged instead (`InstrAux.matchUnmarshalP`, one place to swap), e.g.
+        dec FlowMod 040e0038…0001 0008 80000204 00000007   Go: Match(1,8,[])   model: Match(0,0,[])
 -/
 import OFV.Model.OF.Action
 namespace OFV.Model
 open OFV OFV.Go
 
-def kindsInstr : KindTab := []
-def funcsInstr : FuncTab := []
-def methodsInstr : MethodTab := []
+namespace InstrAux
+
+/-- keep the error flag of a call whose error the Go code ignores, overwrites or returns later;
+    `dflt` is the state the receiver is left in when the call fails -/
+def catchErr {α} (r : R α) (dflt : α) : R (α × Bool) :=
+  match r with
+  | .ok a => .ok (a, false)
+  | .err => .ok (dflt, true)
+  | .panic => .panic
+  | .spin => .spin
+
+/-- `for _, x := range xs { b, err = x.MarshalBinary(); data = append(data, b...) }`:
+    appended bytes, children after the calls, and whether the LAST assignment to `err` was an error
+    (`e` = state of `err` before the loop). -/
+def marshalList (f : V → R (Bytes × V)) : List V → Bool → R (Bytes × List V × Bool)
+  | [], e => .ok ([], [], e)
+  | x :: xs, _ =>
+    match f x with
+    | .ok (b, x') =>
+      match marshalList f xs false with
+      | .ok (bs, xs', e) => .ok (b ++ bs, x' :: xs', e)
+      | .err => .err
+      | .panic => .panic
+      | .spin => .spin
+    | .err =>
+      match marshalList f xs true with
+      | .ok (bs, xs', e) => .ok (bs, x :: xs', e)
+      | .err => .err
+      | .panic => .panic
+      | .spin => .spin
+    | .panic => .panic
+    | .spin => .spin
+
+/-- state of the child-decoding loops: cursor, children so far, error returned from inside the loop -/
+structure St where
+  n : Nat
+  xs : List V
+  err : Bool
+
+/-- progress measure of those loops: an error leaves the loop (counted as progress) -/
+def St.cursor (s : St) : Nat := s.n + (if s.err then 1 else 0)
+
+/-- `for n < limit { a, err := DecodeAction(data[n:]); if err != nil { return err }; xs = append(xs, a); n += int(a.Len()) }` -/
+def decodeActions (data : Slice) (limit : Nat) (n0 : Nat) (xs0 : List V) : R St :=
+  goLoop (σ := St) (data.len + 2) (fun s => !s.err && s.n < limit) St.cursor
+    (fun s => do
+      let d ← data.fromR s.n
+      match DecodeAction (d.len + 1) d with
+      | .ok act => do
+        let (l, act') ← Action.lenM act
+        pure { n := s.n + l.toNat, xs := s.xs ++ [act'], err := false }
+      | .err => .ok { s with err := true }
+      | .panic => .panic
+      | .spin => .spin)
+    { n := n0, xs := xs0, err := false }
+
+/-- `f.Match.UnmarshalBinary(d)` keeping the receiver when the error is not propagated.
+    NOTE: Go leaves a partially decoded Match behind when it fails; `Match.unmarshal` does not expose that state,
+    so the receiver is taken as unchanged (swap for `Match.unmarshalP` if the Match model offers it). -/
+def matchUnmarshalP (recv : V) (d : Slice) : R (V × Bool) := Match.unmarshalP recv d
+
+/-- capacity Go's allocator gives `append([]byte(nil), b...)` (malloc size classes, go1.23), the way the harness
+    builds a `[]byte` ARGUMENT of `fn`; the spare capacity is zeroed -/
+def sizeClasses : List Nat :=
+  [8, 16, 24, 32, 48, 64, 80, 96, 112, 128, 144, 160, 176, 192, 208, 224, 240, 256, 288, 320, 352, 384, 416, 448,
+   480, 512, 576, 640, 704, 768, 896, 1024, 1152, 1280, 1408, 1536, 1792, 2048, 2304, 2688, 3072, 3200, 3456, 4096,
+   4864, 5376, 6144, 6528, 6784, 6912, 8192, 9472, 9728, 10240, 10880, 12288, 13568, 14336, 16384, 18432, 19072,
+   20480, 21760, 24576, 27264, 28672, 32768]
+def argSlice (b : Bytes) : Slice :=
+  match sizeClasses.find? (fun c => b.length ≤ c) with
+  | some c => if b.length = 0 then ⟨[], 0⟩ else ⟨b ++ zeros (c - b.length), b.length⟩
+  | none => ⟨b ++ zeros ((8192 - b.length % 8192) % 8192), b.length⟩
+
+/-- `recv.UnmarshalBinary(b)` called from an API program (the byte-slice argument is built like those of `fn`) -/
+def unmarshalMethod (f : V → Slice → R V) : V → List V → R (V × List V) := fun recv args =>
+  match args with
+  | [.bytes b] => do let v ← f recv (argSlice b); upd v
+  | _ => .panic
+
+end InstrAux
+open InstrAux
+
+/-! ## instruction.go -/
+
+namespace InstrHeader
+def zero : V := .obj "InstrHeader" [.num 0, .num 0]
+def lenM (v : V) : R (UInt16 × V) := same 4 v
+def bytes : V → R Bytes
+  | .obj "InstrHeader" [.num t, .num l] => .ok (be16 (n16 t) ++ be16 (n16 l))
+  | _ => .panic
+def marshalM (v : V) : R (Bytes × V) := do let b ← bytes v; same b v
+def unmarshal (_recv : V) (data : Slice) : R V :=
+  if data.len ≠ 4 then .err else do
+    let t ← data.u16In 0 2
+    let l ← data.u16In 2 4
+    pure (.obj "InstrHeader" [V.u16 t, V.u16 l])
+/-- `instr.InstrHeader.UnmarshalBinary(data[:4])`, result ignored (the 4-byte slice never fails the size check) -/
+def unmarshal4 (recv : V) (data : Slice) : R V := do
+  let d4 ← data.uptoR 4
+  let (h, _) ← catchErr (unmarshal recv d4) recv
+  pure h
+def length : V → Nat
+  | .obj "InstrHeader" [_, .num l] => l
+  | _ => 0
+end InstrHeader
+
+namespace InstrGotoTable
+def zero : V := .obj "InstrGotoTable" [InstrHeader.zero, .num 0, .bytes []]
+def lenM (v : V) : R (UInt16 × V) := same 8 v
+def marshalM (v : V) : R (Bytes × V) :=
+  match v with
+  | .obj "InstrGotoTable" [h, .num tid, .bytes pad] => do
+    let hb ← InstrHeader.bytes h
+    -- b := make([]byte, 4); b[0] = TableId; copy(b[3:], pad)
+    same (hb ++ [n8 tid, 0, 0] ++ makeCopy 1 pad) v
+  | _ => .panic
+def unmarshal (recv : V) (data : Slice) : R V :=
+  match recv with
+  | .obj "InstrGotoTable" [h0, _, .bytes pad0] => do
+    let h ← InstrHeader.unmarshal4 h0 data
+    let tid ← data.byteAt 4
+    let s ← data.sliceR 5 8
+    pure (.obj "InstrGotoTable" [h, V.u8 tid, .bytes (copyInto pad0 s.bytes)])
+  | _ => .panic
+/-- NewInstrGotoTable(tableId) -/
+def new (tid : Nat) : V :=
+  .obj "InstrGotoTable" [.obj "InstrHeader" [.num Gen.openflow13.InstrType_GOTO_TABLE, .num 8], V.u8 (n8 tid), .bytes (zeros 3)]
+end InstrGotoTable
+
+namespace InstrWriteMetadata
+def zero : V := .obj "InstrWriteMetadata" [InstrHeader.zero, .bytes [], .num 0, .num 0]
+def lenM (v : V) : R (UInt16 × V) := same 24 v
+def marshalM (v : V) : R (Bytes × V) :=
+  match v with
+  | .obj "InstrWriteMetadata" [h, .bytes pad, .num md, .num mk] => do
+    let hb ← InstrHeader.bytes h
+    -- b := make([]byte, 20); copy(b, pad); PutUint64(b[4:], md); PutUint64(b[12:], mask)
+    same (hb ++ makeCopy 4 pad ++ be64 (n64 md) ++ be64 (n64 mk)) v
+  | _ => .panic
+def unmarshal (recv : V) (data : Slice) : R V :=
+  match recv with
+  | .obj "InstrWriteMetadata" [h0, .bytes pad0, _, _] => do
+    let h ← InstrHeader.unmarshal4 h0 data
+    let s ← data.sliceR 4 8
+    let md ← data.u64In 8 16
+    let mk ← data.u64In 16 24
+    pure (.obj "InstrWriteMetadata" [h, .bytes (copyInto pad0 s.bytes), V.u64 md, V.u64 mk])
+  | _ => .panic
+/-- NewInstrWriteMetadata(metadata, metadataMask) -/
+def new (md mk : Nat) : V :=
+  .obj "InstrWriteMetadata" [.obj "InstrHeader" [.num Gen.openflow13.InstrType_WRITE_METADATA, .num 24],
+    .bytes (zeros 4), V.u64 (n64 md), V.u64 (n64 mk)]
+end InstrWriteMetadata
+
+namespace InstrActions
+def zero : V := .obj "InstrActions" [InstrHeader.zero, .bytes [], .list []]
+def lenM : V → R (UInt16 × V)
+  | .obj "InstrActions" [h, p, .list as] => do
+    let (ls, as') ← mapM2 Action.lenM as
+    .ok (8 + sum16 ls, .obj "InstrActions" [h, p, .list as'])
+  | _ => .panic
+def marshalM : V → R (Bytes × V)
+  | .obj "InstrActions" [h, .bytes pad, .list as] => do
+    let hb ← InstrHeader.bytes h
+    let (bs, as', e) ← marshalList Action.marshalM as false
+    if e then .err else .ok (hb ++ makeCopy 4 pad ++ bs, .obj "InstrActions" [h, .bytes pad, .list as'])
+  | _ => .panic
+/-- UnmarshalBinary: receiver after the call and whether an error was returned -/
+def unmarshalP (recv : V) (data : Slice) : R (V × Bool) :=
+  match recv with
+  | .obj "InstrActions" [h0, pad, .list as0] => do
+    let h ← InstrHeader.unmarshal4 h0 data
+    let st ← decodeActions data (InstrHeader.length h) 8 as0
+    pure (.obj "InstrActions" [h, pad, .list st.xs], st.err)
+  | _ => .panic
+def unmarshal (recv : V) (data : Slice) : R V := do
+  let (v, e) ← unmarshalP recv data
+  if e then .err else pure v
+/-- AddAction(act, prepend) -/
+def addAction (v act : V) (prepend : Bool) : R V :=
+  match v with
+  | .obj "InstrActions" [h, p, .list as] => do
+    let as1 := if prepend then act :: as else as ++ [act]
+    let (l, v1) ← lenM (.obj "InstrActions" [h, p, .list as1])
+    match v1 with
+    | .obj "InstrActions" [.obj "InstrHeader" [t, _], p', as'] =>
+      pure (.obj "InstrActions" [.obj "InstrHeader" [t, V.u16 l], p', as'])
+    | _ => .panic
+  | _ => .panic
+/-- NewInstrWriteActions / NewInstrApplyActions -/
+def new (ty : Nat) : V := .obj "InstrActions" [.obj "InstrHeader" [.num ty, .num 8], .bytes (zeros 4), .list []]
+end InstrActions
+
+namespace InstrMeter
+def zero : V := .obj "InstrMeter" [InstrHeader.zero, .num 0]
+/- all three methods are promoted from the embedded InstrHeader: MeterId is neither counted, written nor read -/
+def lenM (v : V) : R (UInt16 × V) := same 4 v
+def marshalM (v : V) : R (Bytes × V) :=
+  match v with
+  | .obj "InstrMeter" [h, _] => do let b ← InstrHeader.bytes h; same b v
+  | _ => .panic
+def unmarshal (recv : V) (data : Slice) : R V :=
+  match recv with
+  | .obj "InstrMeter" [h0, m] => do
+    let h ← InstrHeader.unmarshal h0 data
+    pure (.obj "InstrMeter" [h, m])
+  | _ => .panic
+end InstrMeter
+
+/- interface Instruction -/
+namespace Instruction
+def lenM (v : V) : R (UInt16 × V) :=
+  match v.kind with
+  | "InstrGotoTable" => InstrGotoTable.lenM v
+  | "InstrWriteMetadata" => InstrWriteMetadata.lenM v
+  | "InstrActions" => InstrActions.lenM v
+  | "InstrMeter" => InstrMeter.lenM v
+  | _ => .panic
+def marshalM (v : V) : R (Bytes × V) :=
+  match v.kind with
+  | "InstrGotoTable" => InstrGotoTable.marshalM v
+  | "InstrWriteMetadata" => InstrWriteMetadata.marshalM v
+  | "InstrActions" => InstrActions.marshalM v
+  | "InstrMeter" => InstrMeter.marshalM v
+  | _ => .panic
+end Instruction
+
+/-- DecodeInstr(data): the error of UnmarshalBinary is dropped, the (partially filled) value is returned;
+    an unknown or experimenter type leaves the interface nil and the method call panics -/
+def DecodeInstr (data : Slice) : R V := do
+  let t16 ← data.u16In 0 2
+  let t := t16.toNat
+  if t = Gen.openflow13.InstrType_GOTO_TABLE then do
+    let (v, _) ← catchErr (InstrGotoTable.unmarshal InstrGotoTable.zero data) InstrGotoTable.zero
+    pure v
+  else if t = Gen.openflow13.InstrType_WRITE_METADATA then do
+    let (v, _) ← catchErr (InstrWriteMetadata.unmarshal InstrWriteMetadata.zero data) InstrWriteMetadata.zero
+    pure v
+  else if t = Gen.openflow13.InstrType_WRITE_ACTIONS ∨ t = Gen.openflow13.InstrType_APPLY_ACTIONS
+      ∨ t = Gen.openflow13.InstrType_CLEAR_ACTIONS then do
+    let (v, _) ← InstrActions.unmarshalP InstrActions.zero data
+    pure v
+  else if t = Gen.openflow13.InstrType_METER then do
+    let (v, _) ← catchErr (InstrMeter.unmarshal InstrMeter.zero data) InstrMeter.zero
+    pure v
+  else .panic
+
+/-! ## group.go -/
+
+namespace Bucket
+def zero : V := .obj "Bucket" [.num 0, .num 0, .num 0, .num 0, .bytes [], .list []]
+def lenM : V → R (UInt16 × V)
+  | .obj "Bucket" [l, w, wp, wg, p, .list as] => do
+    let (ls, as') ← mapM2 Action.lenM as
+    .ok (round8 (16 + sum16 ls), .obj "Bucket" [l, w, wp, wg, p, .list as'])
+  | _ => .panic
+def marshalM (v : V) : R (Bytes × V) := do
+  let (l, v) ← lenM v             -- b.Length = b.Len()
+  match v with
+  | .obj "Bucket" [_, .num w, .num wp, .num wg, p, .list as] => do
+    let (bs, as', e) ← marshalList Action.marshalM as false
+    if e then .err
+    else .ok (be16 l ++ be16 (n16 w) ++ be32 (n32 wp) ++ be32 (n32 wg) ++ zeros 4 ++ bs,
+              .obj "Bucket" [V.u16 l, .num w, .num wp, .num wg, p, .list as'])
+  | _ => .panic
+def unmarshalP (recv : V) (data : Slice) : R (V × Bool) :=
+  match recv with
+  | .obj "Bucket" [_, _, _, _, p, .list as0] => do
+    let l ← data.u16From 0
+    let w ← data.u16From 2
+    let wp ← data.u32From 4
+    let wg ← data.u32From 8
+    let st ← decodeActions data l.toNat 16 as0
+    pure (.obj "Bucket" [V.u16 l, V.u16 w, V.u32 wp, V.u32 wg, p, .list st.xs], st.err)
+  | _ => .panic
+def unmarshal (recv : V) (data : Slice) : R V := do
+  let (v, e) ← unmarshalP recv data
+  if e then .err else pure v
+/-- NewBucket() -/
+def new : V := .obj "Bucket" [.num 16, .num 0, .num Gen.openflow13.P_ANY, .num Gen.openflow13.OFPG_ANY,
+  .bytes (zeros 4), .list []]
+def addAction : V → V → R V
+  | .obj "Bucket" [l, w, wp, wg, p, .list as], act => .ok (.obj "Bucket" [l, w, wp, wg, p, .list (as ++ [act])])
+  | _, _ => .panic
+def length : V → V
+  | .obj "Bucket" (l :: _) => l
+  | _ => .num 0
+def setLength (l : V) : V → V
+  | .obj "Bucket" (_ :: r) => .obj "Bucket" (l :: r)
+  | v => v
+/-- MarshalBinary on a COPY of the bucket (`for _, bkt := range g.Buckets`): the copy's Length is lost,
+    what happens to the actions (shared pointers) stays -/
+def marshalCopyM (b : V) : R (Bytes × V) := do
+  let (bs, b') ← marshalM b
+  pure (bs, setLength (length b) b')
+end Bucket
+
+namespace GroupMod
+def zero : V := .obj "GroupMod" [Header.zero, .num 0, .num 0, .num 0, .num 0, .list []]
+def lenM (v : V) : R (UInt16 × V) :=
+  match v with
+  | .obj "GroupMod" [h, .num cmd, t, p, g, .list bs] =>
+    if cmd = Gen.openflow13.OFPGC_DELETE then .ok (16, v)
+    else do
+      let (ls, bs') ← mapM2 Bucket.lenM bs
+      .ok (16 + sum16 ls, .obj "GroupMod" [h, .num cmd, t, p, g, .list bs'])
+  | _ => .panic
+def marshalM (v : V) : R (Bytes × V) := do
+  let (l, v) ← lenM v             -- g.Header.Length = g.Len()
+  match v with
+  | .obj "GroupMod" [h, .num cmd, .num t, .num p, .num g, .list bs] => do
+    let h := Header.setLength l h
+    let hb ← Header.bytes h
+    let (bb, bs', e) ← marshalList Bucket.marshalCopyM bs false
+    if e then .err
+    else .ok (hb ++ be16 (n16 cmd) ++ [n8 t, n8 p] ++ be32 (n32 g) ++ bb,
+              .obj "GroupMod" [h, .num cmd, .num t, .num p, .num g, .list bs'])
+  | _ => .panic
+def unmarshal (recv : V) (data : Slice) : R V :=
+  match recv with
+  | .obj "GroupMod" [h0, _, _, _, _, .list bs0] => do
+    let d0 ← data.fromR 0
+    let (h, _) ← catchErr (Header.unmarshal h0 d0) h0
+    let cmd ← data.u16From 8
+    let t ← data.byteAt 10
+    let p ← data.byteAt 11
+    let g ← data.u32From 12
+    let limit := Header.length h
+    let st ← goLoop (σ := St) (data.len + 2) (fun s => s.n < limit) (·.n)
+      (fun s => do
+        let d ← data.fromR s.n
+        -- bkt := new(Bucket); bkt.UnmarshalBinary(data[n:])  (error ignored);  append(*bkt);  n += bkt.Len()
+        let (b, _) ← Bucket.unmarshalP Bucket.zero d
+        let (l, b') ← Bucket.lenM b
+        pure { n := s.n + l.toNat, xs := s.xs ++ [b'], err := false })
+      { n := 16, xs := bs0, err := false }
+    pure (.obj "GroupMod" [h, V.u16 cmd, V.u8 t, V.u8 p, V.u32 g, .list st.xs])
+  | _ => .panic
+/-- NewGroupMod() with the transaction id supplied -/
+def new (xid : Nat) : V :=
+  match newHeader 4 xid with
+  | .obj "Header" [ver, _, l, x] =>
+    .obj "GroupMod" [.obj "Header" [ver, .num Gen.openflow13.Type_GroupMod, l, x],
+      .num Gen.openflow13.OFPGC_ADD, .num Gen.openflow13.OFPGT_ALL, .num 0, .num 0, .list []]
+  | _ => .nil
+def addBucket : V → V → R V
+  | .obj "GroupMod" [h, c, t, p, g, .list bs], b => .ok (.obj "GroupMod" [h, c, t, p, g, .list (bs ++ [b])])
+  | _, _ => .panic
+end GroupMod
+
+/-! ## flowmod.go -/
+
+namespace FlowMod
+def zero : V := .obj "FlowMod" [Header.zero, .num 0, .num 0, .num 0, .num 0, .num 0, .num 0, .num 0, .num 0, .num 0,
+  .num 0, .num 0, .bytes [], Match.zero, .list []]
+def lenM (v : V) : R (UInt16 × V) :=
+  match v with
+  | .obj "FlowMod" [h, ck, cm, tid, .num cmd, it, ht, pr, bid, op, og, fl, pad, m, .list is] => do
+    let (ml, m') ← Match.lenM m
+    let n : UInt16 := 8 + 40 + ml
+    if cmd = Gen.openflow13.FC_DELETE ∨ cmd = Gen.openflow13.FC_DELETE_STRICT then
+      .ok (n, .obj "FlowMod" [h, ck, cm, tid, .num cmd, it, ht, pr, bid, op, og, fl, pad, m', .list is])
+    else do
+      let (ls, is') ← mapM2 Instruction.lenM is
+      .ok (n + sum16 ls, .obj "FlowMod" [h, ck, cm, tid, .num cmd, it, ht, pr, bid, op, og, fl, pad, m', .list is'])
+  | _ => .panic
+def marshalM (v : V) : R (Bytes × V) := do
+  let (l, v) ← lenM v             -- f.Header.Length = f.Len()
+  match v with
+  | .obj "FlowMod" [h, .num ck, .num cm, .num tid, .num cmd, .num it, .num ht, .num pr, .num bid, .num op, og,
+      .num fl, pad, m, .list is] => do
+    let h := Header.setLength l h
+    let hb ← Header.bytes h
+    let fixed := be64 (n64 ck) ++ be64 (n64 cm) ++ [n8 tid, n8 cmd] ++ be16 (n16 it) ++ be16 (n16 ht)
+      ++ be16 (n16 pr) ++ be32 (n32 bid) ++ be32 (n32 op) ++ be32 (n32 op) /- sic: OutPort again -/
+      ++ be16 (n16 fl) ++ zeros 2
+    -- bytes, err = f.Match.MarshalBinary(); data = append(data, bytes...)   (Match returns nil bytes with an error)
+    let ((mb, m'), e0) ← catchErr (Match.marshalM m) ([], m)
+    let (ib, is', e) ← marshalList Instruction.marshalM is e0
+    if e then .err
+    else .ok (hb ++ fixed ++ mb ++ ib,
+      .obj "FlowMod" [h, .num ck, .num cm, .num tid, .num cmd, .num it, .num ht, .num pr, .num bid, .num op, og,
+        .num fl, pad, m', .list is'])
+  | _ => .panic
+def unmarshal (recv : V) (data : Slice) : R V :=
+  match recv with
+  | .obj "FlowMod" [h0, _, _, _, _, _, _, _, _, _, _, _, pad, m0, .list is0] => do
+    let d0 ← data.fromR 0
+    let (h, _) ← catchErr (Header.unmarshal h0 d0) h0
+    let ck ← data.u64From 8
+    let cm ← data.u64From 16
+    let tid ← data.byteAt 24
+    let cmd ← data.byteAt 25
+    let it ← data.u16From 26
+    let ht ← data.u16From 28
+    let pr ← data.u16From 30
+    let bid ← data.u32From 32
+    let op ← data.u32From 36
+    let og ← data.u32From 40
+    let fl ← data.u16From 44
+    let dm ← data.fromR 48
+    let (m, _) ← matchUnmarshalP m0 dm       -- f.Match.UnmarshalBinary(data[n:])  (error ignored)
+    let (ml, m) ← Match.lenM m
+    let limit := Header.length h
+    let st ← goLoop (σ := St) (data.len + 2) (fun s => s.n < limit) (·.n)
+      (fun s => do
+        let d ← data.fromR s.n
+        let i ← DecodeInstr d
+        let (l, i') ← Instruction.lenM i
+        pure { n := s.n + l.toNat, xs := s.xs ++ [i'], err := false })
+      { n := 48 + ml.toNat, xs := is0, err := false }
+    pure (.obj "FlowMod" [h, V.u64 ck, V.u64 cm, V.u8 tid, V.u8 cmd, V.u16 it, V.u16 ht, V.u16 pr, V.u32 bid,
+      V.u32 op, V.u32 og, V.u16 fl, pad, m, .list st.xs])
+  | _ => .panic
+/-- NewFlowMod() with the transaction id supplied -/
+def new (xid : Nat) : V :=
+  match newHeader 4 xid with
+  | .obj "Header" [ver, _, l, x] =>
+    .obj "FlowMod" [.obj "Header" [ver, .num Gen.openflow13.Type_FlowMod, l, x],
+      .num 0, .num 0, .num 0, .num Gen.openflow13.FC_ADD, .num 0, .num 0, .num 1000, .num 4294967295,
+      .num Gen.openflow13.P_ANY, .num Gen.openflow13.OFPG_ANY, .num 0, .bytes [], Match.new, .list []]
+  | _ => .nil
+def addInstruction : V → V → R V
+  | .obj "FlowMod" [h, ck, cm, tid, cmd, it, ht, pr, bid, op, og, fl, pad, m, .list is], i =>
+    .ok (.obj "FlowMod" [h, ck, cm, tid, cmd, it, ht, pr, bid, op, og, fl, pad, m, .list (is ++ [i])])
+  | _, _ => .panic
+end FlowMod
+
+namespace FlowRemoved
+def zero : V := .obj "FlowRemoved" [Header.zero, .num 0, .num 0, .num 0, .num 0, .num 0, .num 0, .num 0, .num 0,
+  .num 0, .num 0, Match.zero]
+def lenM : V → R (UInt16 × V)
+  | .obj "FlowRemoved" [h, ck, pr, rs, tid, ds, dn, it, ht, pc, bc, m] => do
+    let (ml, m') ← Match.lenM m
+    .ok (8 + ml + 40, .obj "FlowRemoved" [h, ck, pr, rs, tid, ds, dn, it, ht, pc, bc, m'])
+  | _ => .panic
+def marshalM (v : V) : R (Bytes × V) := do
+  let (l, v) ← lenM v             -- data = make([]byte, int(f.Len()))
+  match v with
+  | .obj "FlowRemoved" [h, .num ck, .num pr, .num rs, .num tid, .num ds, .num dn, .num it, .num ht, .num pc,
+      .num bc, m] => do
+    let hb ← Header.bytes h        -- Header.Length is NOT updated here
+    let fixed := [pCopyAdv hb 8, pU64 ck, pU16 pr, pU8 rs, pU8 tid, pU32 ds, pU32 dn, pU16 it, pU16 ht,
+      pU64 pc, pU64 bc]
+    let _ ← fill l.toNat fixed     -- the fixed part is written (and may panic) before the Match is marshalled
+    let (mb, m) ← Match.marshalM m -- an error of the Match is what MarshalBinary returns
+    let (_, m) ← Match.lenM m      -- next += int(f.Match.Len())
+    let bs ← fill l.toNat (fixed ++ [pCopy mb])
+    .ok (bs, .obj "FlowRemoved" [h, .num ck, .num pr, .num rs, .num tid, .num ds, .num dn, .num it, .num ht,
+      .num pc, .num bc, m])
+  | _ => .panic
+def unmarshal (recv : V) (data : Slice) : R V :=
+  match recv with
+  | .obj "FlowRemoved" [h0, _, _, _, _, _, _, _, _, _, _, m0] => do
+    let d0 ← data.fromR 0
+    let (h, _) ← catchErr (Header.unmarshal h0 d0) h0      -- err is overwritten below
+    let ck ← data.u64From 8
+    let pr ← data.u16From 16
+    let rs ← data.byteAt 18
+    let tid ← data.byteAt 19
+    let ds ← data.u32From 20
+    let dn ← data.u32From 24
+    let it ← data.u16From 28
+    let ht ← data.u16From 30
+    let pc ← data.u64From 32
+    let bc ← data.u64From 40
+    let dm ← data.fromR 48
+    let (m, e) ← matchUnmarshalP m0 dm
+    let (_, m) ← Match.lenM m       -- next += int(f.Match.Len())
+    if e then .err
+    else pure (.obj "FlowRemoved" [h, V.u64 ck, V.u16 pr, V.u8 rs, V.u8 tid, V.u32 ds, V.u32 dn, V.u16 it, V.u16 ht,
+      V.u64 pc, V.u64 bc, m])
+  | _ => .panic
+/-- NewFlowRemoved() with the transaction id supplied (Header.Type stays 0) -/
+def new (xid : Nat) : V :=
+  .obj "FlowRemoved" [newHeader 4 xid, .num 0, .num 0, .num 0, .num 0, .num 0, .num 0, .num 0, .num 0, .num 0, .num 0,
+    Match.new]
+end FlowRemoved
+
+/-! ## tables -/
+
+def kindsInstr : KindTab := [
+  ("InstrHeader", ⟨InstrHeader.lenM, InstrHeader.marshalM, InstrHeader.unmarshal, InstrHeader.zero⟩),
+  ("InstrGotoTable", ⟨InstrGotoTable.lenM, InstrGotoTable.marshalM, InstrGotoTable.unmarshal, InstrGotoTable.zero⟩),
+  ("InstrWriteMetadata", ⟨InstrWriteMetadata.lenM, InstrWriteMetadata.marshalM, InstrWriteMetadata.unmarshal,
+      InstrWriteMetadata.zero⟩),
+  ("InstrActions", ⟨InstrActions.lenM, InstrActions.marshalM, InstrActions.unmarshal, InstrActions.zero⟩),
+  ("InstrMeter", ⟨InstrMeter.lenM, InstrMeter.marshalM, InstrMeter.unmarshal, InstrMeter.zero⟩),
+  ("Bucket", ⟨Bucket.lenM, Bucket.marshalM, Bucket.unmarshal, Bucket.zero⟩),
+  ("GroupMod", ⟨GroupMod.lenM, GroupMod.marshalM, GroupMod.unmarshal, GroupMod.zero⟩),
+  ("FlowMod", ⟨FlowMod.lenM, FlowMod.marshalM, FlowMod.unmarshal, FlowMod.zero⟩),
+  ("FlowRemoved", ⟨FlowRemoved.lenM, FlowRemoved.marshalM, FlowRemoved.unmarshal, FlowRemoved.zero⟩)
+]
+
+def funcsInstr : FuncTab := [
+  ("DecodeInstr", fun args => match args with
+    | [.bytes b] => do let v ← DecodeInstr (argSlice b); ret1 v
+    | _ => .panic),
+  ("NewInstrGotoTable", fun args => match args with
+    | [.num t] => ret1 (InstrGotoTable.new t)
+    | _ => .panic),
+  ("NewInstrWriteMetadata", fun args => match args with
+    | [.num md, .num mk] => ret1 (InstrWriteMetadata.new md mk)
+    | _ => .panic),
+  ("NewInstrWriteActions", fun _ => ret1 (InstrActions.new Gen.openflow13.InstrType_WRITE_ACTIONS)),
+  ("NewInstrApplyActions", fun _ => ret1 (InstrActions.new Gen.openflow13.InstrType_APPLY_ACTIONS)),
+  ("NewBucket", fun _ => ret1 Bucket.new),
+  ("NewGroupMod", fun _ => ret1 (GroupMod.new 0)),
+  ("NewFlowMod", fun _ => ret1 (FlowMod.new 0)),
+  ("NewFlowRemoved", fun _ => ret1 (FlowRemoved.new 0))
+]
+
+def methodsInstr : MethodTab := [
+  ("InstrHeader.UnmarshalBinary", unmarshalMethod InstrHeader.unmarshal),
+  ("InstrGotoTable.UnmarshalBinary", unmarshalMethod InstrGotoTable.unmarshal),
+  ("InstrWriteMetadata.UnmarshalBinary", unmarshalMethod InstrWriteMetadata.unmarshal),
+  ("InstrActions.UnmarshalBinary", unmarshalMethod InstrActions.unmarshal),
+  ("InstrMeter.UnmarshalBinary", unmarshalMethod InstrMeter.unmarshal),
+  ("Bucket.UnmarshalBinary", unmarshalMethod Bucket.unmarshal),
+  ("GroupMod.UnmarshalBinary", unmarshalMethod GroupMod.unmarshal),
+  ("FlowMod.UnmarshalBinary", unmarshalMethod FlowMod.unmarshal),
+  ("FlowRemoved.UnmarshalBinary", unmarshalMethod FlowRemoved.unmarshal),
+  ("InstrGotoTable.AddAction", fun _ _ => .err),
+  ("InstrWriteMetadata.AddAction", fun _ _ => .err),
+  ("InstrMeter.AddAction", fun _ _ => .err),
+  ("InstrActions.AddAction", fun recv args => match args with
+    | [act, .num p] => do let v ← InstrActions.addAction recv act (p ≠ 0); upd v
+    | _ => .panic),
+  ("Bucket.AddAction", fun recv args => match args with
+    | [act] => do let v ← Bucket.addAction recv act; upd v
+    | _ => .panic),
+  ("GroupMod.AddBucket", fun recv args => match args with
+    | [b] => do let v ← GroupMod.addBucket recv b; upd v
+    | _ => .panic),
+  ("FlowMod.AddInstruction", fun recv args => match args with
+    | [i] => do let v ← FlowMod.addInstruction recv i; upd v
+    | _ => .panic)
+]
 
 end OFV.Model
